@@ -91,8 +91,10 @@ def files(ctx, report):
     rng = ctx.rng
     nsc = 10 if ctx.quick else 80
     for sc in range(nsc):
-        shape = ["flat", "flat", "hive", "drill", "flat-cat", "flat-catdiff", "subdatasets"][sc % 7]
-        k = rng.choice([1, 2, 3, 4, 5]) if sc % 7 != 1 else 4
+        shape = ["flat", "flat", "hive", "drill", "flat-cat", "flat-catdiff", "subdatasets", "flat-catprefix"][sc % 8]
+        k = rng.choice([1, 2, 3, 4, 5]) if sc % 8 != 1 else 4
+        if shape == "flat-catprefix":
+            k = 3
         root = os.path.join(ctx.workdir("c14"), f"s{sc}")
         shutil.rmtree(root, ignore_errors=True)
         os.makedirs(root)
@@ -105,7 +107,18 @@ def files(ctx, report):
             start += n
             for j, kd in enumerate(kinds):
                 df[f"c{j}"] = gen_column(rng, kd, n, rng.choice(["none", "some"])).values
-            if "cat" in shape:
+            if shape == "flat-catprefix":
+                # dictionaries that are prefixes of one another and grow past the int8 code range:
+                # every code means the same label in every file
+                ncat = [3, 5, 200][i]
+                cats = [f"L{j:03d}" for j in range(ncat)]
+                n = max(n, 2)
+                df = df.iloc[:0] if False else pd.DataFrame({"rid": np.arange(start - len(df), start - len(df) + n, dtype="int64")})
+                start = int(df["rid"].iloc[-1]) + 1
+                for j, kd in enumerate(kinds):
+                    df[f"c{j}"] = gen_column(rng, kd, n, "none").values
+                df["cat"] = pd.Categorical([cats[rng.randrange(ncat)] for _ in range(n - 1)] + [cats[-1]], categories=cats)
+            elif "cat" in shape:
                 cats = ["x", "y", "z"] if shape == "flat-cat" else rng.choice([["x", "y"], ["y", "x"], ["x", "y", "w"], ["q", "x"]])
                 df["cat"] = pd.Categorical([rng.choice(cats) for _ in range(n)], categories=cats)
             if shape == "hive":
@@ -117,6 +130,8 @@ def files(ctx, report):
             oe = {f"c{j}": "utf8" for j, kd in enumerate(kinds) if kd == "str"}      # same stored type in every file
             oe = dict(object_encoding={**oe, **({"cat": "infer"} if "cat" in df.columns else {})}) if oe else {}
             name = f"f{rng.choice('zyxwv')}{i}.parquet"       # names not in creation order
+            if shape == "flat-catprefix":
+                name = f"f{i}.parquet"
             os.makedirs(os.path.join(root, sub), exist_ok=True)
             fn = os.path.join(root, sub, name)
             if shape == "subdatasets":
@@ -128,7 +143,8 @@ def files(ctx, report):
             frames.append(df)
             paths.append(fn)
         order = list(range(k))
-        rng.shuffle(order)
+        if shape != "flat-catprefix":      # there the widest dictionary has to be read last (see C14-categorical-relabel)
+            rng.shuffle(order)
         given = [paths[i] for i in order]
         exp = pd.concat([frames[i] for i in order], ignore_index=True)
         modes = ["list", "list-sorted", "merge"] + (["dir", "glob"] if shape != "subdatasets" else [])
